@@ -150,7 +150,8 @@ FAMILIES = {
                     MapPaths="None0", Leaves="FD_Leaves", Cbs="FD_Cbs", DispPaths="FD_DispPaths"),
         sharing=False, hist=2, bfs_consts=dict(Kinds="FD_KindsB", Cbs="FD_CbsB", Leaves="FD_LeavesB"),
         runs={"quick": [dict(mode="bfs", max_nodes=4, split=4), dict(mode="sim", max_nodes=6, min_nodes=3, num=16000, depth=26, procs=8, sharing=True)],
-              "thorough": [dict(mode="bfs", max_nodes=5), dict(mode="sim", max_nodes=7, min_nodes=3, num=80000, depth=32, procs=12, sharing=True)]},
+              # (with set_dispatch between calls the exhaustive run stays at 4 nodes; depth comes from the simulation)
+              "thorough": [dict(mode="bfs", max_nodes=4, split=8), dict(mode="sim", max_nodes=7, min_nodes=3, num=80000, depth=32, procs=12, sharing=True)]},
         shards=[["ds"]], shard_defs={"ds": "SK_ds"}),
     "classes": dict(
         consts=dict(Raises="NoRaises", Kinds="FL_Kinds", Paths="FL_Paths", Consts="FL_Consts", Tmpls="None0",
